@@ -1,7 +1,11 @@
 """property -> correspondence suites"""
-from .suites import pure, diff, walk, sync, proto, faults, metaonly, wire, filt
+from .suites import pure, diff, walk, sync, proto, faults, metaonly, wire, filt, follow
 
 PROPS = {
+    "C18": {
+        "suites": [follow.Dedupe, follow.FollowLinks],
+        "assumptions": ["filepath.Match is modelled for *, ?, simple classes and escapes"],
+    },
     "C11": {
         "suites": [sync.SendFilter, filt.FilterC11],
         "assumptions": ["moby/patternmatcher modelled for the declared fragment"],
